@@ -180,6 +180,17 @@ Section Generic.
     rewrite <- H1. now apply H3.
   Qed.
 
+
+  Lemma post_upd f f1 res rb :
+    L f = res ++ rb ++ RemOf f1 -> inv f1 -> same_cfg f f1 -> pos f1 = pos f ->
+    realpos f1 + zlen (RemOf f1) = realpos f + zlen (RemOf f) ->
+    post f (upd_rd f1 rb (pos f1 + zlen res) (realpos f1) (strm f1)) res.
+  Proof.
+    intros H1 H2 H3 H4 H5. unfold post. split; [exact H1|]. split; [exact H2|].
+    split; [eapply same_cfg_trans; [exact H3|apply same_cfg_upd]|].
+    split; [cbn; rewrite H4; reflexivity|exact H5].
+  Qed.
+
   Lemma fill_loop_spec fuel : forall size f,
     inv f -> fuel_ok fuel f -> 0 < bufsize f ->
     exists f', fill_loop sread fuel size f = Some f' /\
@@ -199,7 +210,7 @@ Section Generic.
           destruct (sread_nil _ _ _ _ Hi Hrs Er) as (R1 & R2 & R3).
           eexists. split; [reflexivity|].
           unfold L, RemOf, inv. cbn. rewrite R2. fold (RemOf f). unfold RemOf. rewrite R1.
-          repeat split; try reflexivity; try exact R3. apply same_cfg_upd.
+          repeat split; try reflexivity; try exact R3; try apply same_cfg_upd.
         * apply is_nil_false in En.
           destruct (sread_spec _ _ _ _ _ Hi Hrs Er) as (H1 & H2 & H3 & H4).
           set (f1 := upd_rd f (rbuf f ++ d) (pos f) (realpos f + zlen d) s').
@@ -231,7 +242,7 @@ Section Generic.
         eexists. split.
         { unfold RemOf. rewrite R1, app_nil_r. reflexivity. }
         unfold RemOf, inv. cbn. rewrite R1, R2. cbn.
-        repeat split; try reflexivity; try exact R3; try lia. apply same_cfg_upd.
+        repeat split; try reflexivity; try exact R3; try lia; try apply same_cfg_upd.
       + apply is_nil_false in En.
         destruct (sread_spec _ _ _ _ _ Hi Hn Er) as (H1 & H2 & H3 & H4).
         set (f1 := upd_rd f (rbuf f) (pos f + zlen d) (realpos f + zlen d) s').
@@ -254,22 +265,19 @@ Section Generic.
     intros Hi Hf Hb Hc Hr Hn. unfold bf_read. rewrite Hc, Hr. cbn [negb].
     replace (n <? 0) with false by lia.
     destruct (n <=? zlen (rbuf f)) eqn:E.
-    - eexists. split.
-      { unfold L. rewrite take_app_le by lia. reflexivity. }
-      unfold post, L, RemOf, inv. cbn. rewrite take_app_le by lia.
-      rewrite app_assoc, take_drop. repeat split; try reflexivity; try exact Hi. apply same_cfg_upd.
+    - assert (Ht : take n (L f) = take n (rbuf f)) by (unfold L; apply take_app_le; lia).
+      rewrite Ht. eexists. split; [reflexivity|].
+      apply post_upd; try assumption; try reflexivity; try apply same_cfg_refl.
+      rewrite app_assoc, take_drop. reflexivity.
     - destruct (fill_loop_spec fuel n f Hi Hf Hb) as (f1 & E1 & E2 & E3 & E4 & E5 & E6 & E7).
       rewrite E1.
       assert (Ht : take n (rbuf f1) = take n (L f)).
       { rewrite <- E2. unfold L. destruct (Z_lt_ge_dec (zlen (rbuf f1)) n) as [Hlt|Hge].
         - rewrite (E7 Hlt), app_nil_r. reflexivity.
         - rewrite take_app_le by lia. reflexivity. }
-      eexists. split; [rewrite Ht; reflexivity|].
-      unfold post. rewrite <- Ht. unfold L at 2, RemOf, inv. cbn.
-      rewrite app_assoc, take_drop. fold (RemOf f1). fold (L f1).
-      split; [now rewrite E2|]. split; [exact E3|].
-      split; [eapply same_cfg_trans; [exact E4|apply same_cfg_upd]|].
-      split; [rewrite E5; reflexivity|]. exact E6.
+      rewrite <- Ht. eexists. split; [reflexivity|].
+      apply post_upd; try assumption.
+      rewrite app_assoc, take_drop. symmetry. exact E2.
   Qed.
 
   Lemma read_all_spec fuel f size :
@@ -324,7 +332,7 @@ Section Generic.
       destruct (sized size && (szof size <=? zlen line)) eqn:E.
       + apply andb_true_iff in E as [E1 E2].
         split; [exact E1|]. exists line. unfold RemOf, inv. cbn.
-        repeat split; try reflexivity; try exact Hi; try lia. apply same_cfg_upd.
+        repeat split; try reflexivity; try exact Hi; try lia; try apply same_cfg_upd.
       + destruct (has_lf line) eqn:Hl.
         * repeat split; try reflexivity; try exact Hi; try apply same_cfg_refl; try exact Hl.
           intros Hs. rewrite Hs in E. cbn in E. lia.
@@ -348,22 +356,23 @@ Section Generic.
              specialize (IH size (line ++ d) f1 H4 Hf1 Hb).
              assert (Hz : realpos f1 + zlen (RemOf f1) = realpos f + zlen (RemOf f)).
              { rewrite HR, zlen_app. cbn. lia. }
+             assert (Hline : (line ++ d) ++ RemOf f1 = line ++ RemOf f)
+               by (rewrite HR, app_assoc; reflexivity).
+             assert (Hcfg : forall f', same_cfg f1 f' -> same_cfg f f')
+               by (intros f' Hc; eapply same_cfg_trans; [apply same_cfg_upd|exact Hc]).
+             change (pos f1) with (pos f) in IH.
+             rewrite Hline, Hz in IH.
              destruct (rl_loop sread k size (line ++ d) f1) as [l' f'|l' [|] f'|].
              ++ destruct IH as (A1 & A2 & A3 & A4 & A5 & A6 & A7 & A8).
-                rewrite HR, app_assoc.
-                repeat split; try assumption.
-                ** eapply same_cfg_trans; [apply same_cfg_upd|exact A6].
-                ** rewrite A8. rewrite <- HR. exact Hz.
+                apply Hcfg in A6.
+                exact (conj A1 (conj A2 (conj A3 (conj A4 (conj A5 (conj A6 (conj A7 A8))))))).
              ++ destruct IH as (A0 & full & A1 & A2 & A3 & A4 & A5 & A6 & A7 & A8).
-                split; [exact A0|]. exists full. rewrite HR, app_assoc.
-                repeat split; try assumption.
-                ** eapply same_cfg_trans; [apply same_cfg_upd|exact A6].
-                ** rewrite A8. rewrite <- HR. exact Hz.
+                apply Hcfg in A6.
+                split; [exact A0|]. exists full.
+                exact (conj A1 (conj A2 (conj A3 (conj A4 (conj A5 (conj A6 (conj A7 A8))))))).
              ++ destruct IH as (A1 & A2 & A3 & A5 & A6 & A7 & A8).
-                rewrite HR, app_assoc.
-                repeat split; try assumption.
-                ** eapply same_cfg_trans; [apply same_cfg_upd|exact A6].
-                ** rewrite A8. rewrite <- HR. exact Hz.
+                apply Hcfg in A6.
+                exact (conj A1 (conj A2 (conj A3 (conj A5 (conj A6 (conj A7 A8)))))).
              ++ exact IH.
   Qed.
 
@@ -394,10 +403,7 @@ Section Generic.
         - rewrite take_all by (specialize (A4 eq_refl); lia). apply upto_lf_none. now apply has_lf_false.
         - apply upto_lf_none. now apply has_lf_false. }
       rewrite El. eexists. split; [reflexivity|].
-      unfold post, L, RemOf, inv. cbn. fold (RemOf f1). rewrite A2, app_nil_r.
-      split; [exact A1|]. split; [exact A5|].
-      split; [eapply same_cfg_trans; [exact A6|apply same_cfg_upd]|].
-      split; [rewrite A7; reflexivity|]. rewrite <- A8, A2. reflexivity.
+      apply post_upd; try assumption. rewrite A2. cbn. rewrite app_nil_r. symmetry. exact A1.
     - (* truncated break *)
       destruct H as (Es & full & A1 & A2 & A3 & A4 & A5 & A6 & A7 & A8).
       assert (Ht : take (szof size) (L f) = l').
@@ -408,17 +414,12 @@ Section Generic.
       + rewrite (upto_lf_some _ _ Ep).
         replace (firstn p l') with (take (Z.of_nat p) l') by (rewrite take_firstn, Nat2Z.id; reflexivity).
         eexists. split; [reflexivity|].
-        unfold post, L, RemOf, inv. cbn. fold (RemOf f1).
-        split.
-        { rewrite <- A1, <- Hfull. rewrite <- (take_succ_index _ _ Ep) at 1.
-          now rewrite <- !app_assoc. }
-        split; [exact A5|]. split; [eapply same_cfg_trans; [exact A6|apply same_cfg_upd]|].
-        split; [rewrite A7; reflexivity|exact A8].
+        apply post_upd; try assumption.
+        rewrite <- A1, <- Hfull. rewrite <- (take_succ_index _ _ Ep) at 1.
+        now rewrite <- !app_assoc.
       + rewrite (upto_lf_none _ Ep). eexists. split; [reflexivity|].
-        unfold post, L, RemOf, inv. cbn. fold (RemOf f1).
-        split; [rewrite <- A1, <- Hfull; now rewrite app_assoc|].
-        split; [exact A5|]. split; [eapply same_cfg_trans; [exact A6|apply same_cfg_upd]|].
-        split; [rewrite A7; reflexivity|exact A8].
+        apply post_upd; try assumption.
+        rewrite <- A1, <- Hfull. now rewrite app_assoc.
     - (* newline found *)
       destruct H as (A1 & A2 & A4 & A5 & A6 & A7 & A8).
       destruct (has_lf_true _ A2) as (p & Ep). rewrite Ep.
@@ -430,11 +431,652 @@ Section Generic.
         - rewrite (upto_lf_app_some _ _ _ Ep), (upto_lf_some _ _ Ep).
           now rewrite take_firstn, Nat2Z.id. }
       rewrite El. eexists. split; [reflexivity|].
-      unfold post, L, RemOf, inv. cbn. fold (RemOf f1).
-      split.
-      { rewrite <- A1. rewrite <- (take_succ_index _ _ Ep) at 1. now rewrite <- !app_assoc. }
-      split; [exact A5|]. split; [eapply same_cfg_trans; [exact A6|apply same_cfg_upd]|].
-      split; [rewrite A7; reflexivity|exact A8].
+      apply post_upd; try assumption.
+      rewrite <- A1. rewrite <- (take_succ_index _ _ Ep) at 1. now rewrite <- !app_assoc.
     - contradiction.
   Qed.
 End Generic.
+
+(* --------------------------------------------- line structure (spec level) -- *)
+Lemma line_spec_structure size Lg :
+  let r := line_spec size Lg in
+  exists rest, Lg = r ++ rest /\
+    ((exists body, r = body ++ [LF] /\ ~ In LF body) \/
+     (~ In LF r /\ sized size = true /\ zlen r = szof size) \/
+     (~ In LF r /\ rest = [])) /\
+    (sized size = true -> zlen r <= szof size).
+Proof.
+  assert (Hgen : forall L0 tail, Lg = L0 ++ tail ->
+            exists rest, Lg = upto_lf L0 ++ rest /\
+              ((exists body, upto_lf L0 = body ++ [LF] /\ ~ In LF body) \/
+               (~ In LF (upto_lf L0) /\ upto_lf L0 = L0 /\ rest = tail)) /\
+              zlen (upto_lf L0) <= zlen L0).
+  { intros L0 tail ->. destruct (index_of LF L0) as [i|] eqn:Ei.
+    - exists (skipn (Datatypes.S i) L0 ++ tail).
+      rewrite app_assoc. unfold upto_lf. rewrite Ei, firstn_skipn.
+      split; [reflexivity|]. split.
+      + left. exists (firstn i L0). split; [now apply index_of_split|].
+        apply index_of_none_in. now apply index_of_first.
+      + unfold zlen. rewrite firstn_length. lia.
+    - exists tail. rewrite (upto_lf_none _ Ei). split; [reflexivity|]. split; [|lia].
+      right. split; [now apply index_of_none_in|]. split; reflexivity. }
+  intros r. subst r. unfold line_spec.
+  assert (Hun : sized size = false ->
+     exists rest, Lg = upto_lf Lg ++ rest /\
+       ((exists body, upto_lf Lg = body ++ [LF] /\ ~ In LF body) \/
+        (~ In LF (upto_lf Lg) /\ sized size = true /\ zlen (upto_lf Lg) = szof size) \/
+        (~ In LF (upto_lf Lg) /\ rest = [])) /\
+       (sized size = true -> zlen (upto_lf Lg) <= szof size)).
+  { intros Hs. destruct (Hgen Lg [] (eq_sym (app_nil_r Lg))) as (rest & E & [Hb|(H1 & H2 & H3)] & _);
+      exists rest; (split; [exact E|]); (split; [|congruence]).
+    - left. exact Hb.
+    - right. right. split; assumption. }
+  destruct size as [s|]; [|apply Hun; reflexivity].
+  destruct (0 <=? s) eqn:Es; [|apply Hun; unfold sized; exact Es].
+  destruct (Hgen (take s Lg) (drop s Lg) (eq_sym (take_drop s Lg))) as (rest & E & Hcase & Hlen).
+  exists rest. split; [exact E|]. unfold sized, szof. rewrite Es.
+  assert (Hz : zlen (take s Lg) <= s) by (rewrite zlen_take by lia; lia).
+  split; [|intros _; lia].
+  destruct Hcase as [Hb|(H1 & H2 & H3)]; [left; exact Hb|].
+  destruct (Z_le_gt_dec s (zlen Lg)) as [Hle|Hgt].
+  - right. left. split; [exact H1|]. split; [reflexivity|]. rewrite H2, zlen_take by lia. lia.
+  - right. right. split; [exact H1|]. rewrite H3. apply drop_all. lia.
+Qed.
+
+(* ------------------------------------------------ the channel-like stream -- *)
+Definition cRem (s : cstream) (_ : Z) : list Z := sdata s.
+Definition cInv (_ : cstream) (_ : Z) : Prop := True.
+
+Lemma c_sread_spec : forall s rp n d s',
+  cInv s rp -> 0 < n -> c_sread s rp n = (d, s') ->
+  cRem s rp = d ++ cRem s' (rp + zlen d) /\ zlen d <= n /\ (d = [] -> cRem s rp = []) /\
+  cInv s' (rp + zlen d).
+Proof.
+  intros s rp n d s' _ Hn E. unfold c_sread in E. injection E as <- <-. unfold cRem, cInv. cbn.
+  set (k := Z.min n (Z.max 1 (hd 1 (roracle s)))).
+  assert (Hk : 1 <= k <= n) by (unfold k; lia).
+  split; [now rewrite take_drop|]. split; [rewrite zlen_take by lia; lia|]. split; [|exact I].
+  intros H. apply (f_equal zlen) in H. rewrite zlen_take, zlen_nil in H by lia.
+  apply zlen_zero. pose proof (zlen_nonneg (sdata s)). lia.
+Qed.
+
+Lemma logical_L (f : cbf) : logical f = L cstream cRem f.
+Proof. reflexivity. Qed.
+
+Definition readable (f : cbf) : Prop := closed f = false /\ fl_read f = true.
+
+(* exact value of every read call on the channel-like stream, for every chunk oracle *)
+Lemma c_read_n fuel (f : cbf) n :
+  (length (sdata (strm f)) < fuel)%nat -> 0 < bufsize f -> readable f -> 0 <= n ->
+  exists f', bf_read c_sread fuel f (Some n) = (Ok (take n (logical f)), f') /\
+             post cstream cRem cInv f f' (take n (logical f)).
+Proof.
+  intros Hf Hb [Hc Hr] Hn.
+  exact (read_n_spec cstream c_sread cRem cInv c_sread_spec fuel f n I Hf Hb Hc Hr Hn).
+Qed.
+Lemma c_read_all fuel (f : cbf) size :
+  (length (sdata (strm f)) < fuel)%nat -> readable f ->
+  match size with None => True | Some n => n < 0 end ->
+  exists f', bf_read c_sread fuel f size = (Ok (logical f), f') /\
+             post cstream cRem cInv f f' (logical f) /\ logical f' = [].
+Proof.
+  intros Hf [Hc Hr] Hs.
+  exact (read_all_spec cstream c_sread cRem cInv c_sread_spec fuel f size I Hf Hc Hr Hs).
+Qed.
+Lemma c_readline fuel (f : cbf) size :
+  (length (sdata (strm f)) < fuel)%nat -> 0 < bufsize f -> readable f ->
+  exists f', bf_readline c_sread fuel f size = (Ok (line_spec size (logical f)), f') /\
+             post cstream cRem cInv f f' (line_spec size (logical f)).
+Proof.
+  intros Hf Hb [Hc Hr].
+  exact (readline_spec cstream c_sread cRem cInv c_sread_spec fuel f size I Hf Hb Hc Hr).
+Qed.
+
+(* what the op-sequence induction carries *)
+Definition rframe (f f' : cbf) : Prop :=
+  bufsize f' = bufsize f /\ (length (logical f') <= length (logical f))%nat.
+
+Lemma post_rframe (f f' : cbf) res :
+  post cstream cRem cInv f f' res -> logical f = res ++ logical f' /\ rframe f f'.
+Proof.
+  intros (H1 & _ & Hc & _ & _). change (logical f = res ++ logical f') in H1. split; [exact H1|].
+  split; [apply Hc|]. rewrite H1, app_length. lia.
+Qed.
+
+Lemma fuel_sdata fuel (f : cbf) :
+  (length (logical f) < fuel)%nat -> (length (sdata (strm f)) < fuel)%nat.
+Proof. unfold logical. rewrite app_length. lia. Qed.
+
+Lemma readlines_loop_spec fuel : forall lfuel (f : cbf) hint count,
+  (length (logical f) < lfuel)%nat -> (length (logical f) < fuel)%nat ->
+  0 < bufsize f -> readable f ->
+  exists ls f', readlines_loop c_sread lfuel fuel hint count f = (Ok ls, f') /\
+    logical f = concat ls ++ logical f' /\ rframe f f' /\
+    Forall (fun l => l <> []) ls.
+Proof.
+  induction lfuel as [|k IH]; intros f hint count Hl Hf Hb Hr; [lia|].
+  cbn [readlines_loop].
+  destruct (c_readline fuel f None (fuel_sdata _ _ Hf) Hb Hr) as (f1 & E1 & P1).
+  rewrite E1. destruct (post_rframe _ _ _ P1) as (HL & Hb1 & Hlen).
+  destruct P1 as (_ & _ & Hcfg & _ & _).
+  destruct (is_nil (line_spec None (logical f))) eqn:En.
+  - exists [], f1. apply is_nil_true in En. rewrite En in HL. cbn in HL.
+    split; [reflexivity|]. split; [exact HL|]. split; [split; [exact Hb1|exact Hlen]|constructor].
+  - apply is_nil_false in En. set (line := line_spec None (logical f)) in *.
+    assert (Hshort : (length (logical f1) < length (logical f))%nat).
+    { rewrite HL, app_length. destruct line; [congruence|cbn; lia]. }
+    assert (Hr1 : readable f1).
+    { destruct Hr as [Hc Hrd]. destruct Hcfg as (_ & _ & C3 & _ & _ & _ & _ & _ & C9).
+      split; congruence. }
+    destruct (match hint with Some h => h <=? count + zlen line | None => false end).
+    + exists [line], f1. change (concat [line]) with (line ++ []). rewrite app_nil_r.
+      split; [reflexivity|]. split; [exact HL|].
+      split; [split; [exact Hb1|exact Hlen]|]. constructor; [exact En|constructor].
+    + destruct (IH f1 hint (count + zlen line)) as (ls & f2 & E2 & HL2 & (Hb2 & Hlen2) & Hne);
+        try lia; try assumption.
+      rewrite E2. exists (line :: ls), f2. split; [reflexivity|].
+      change (concat (line :: ls)) with (line ++ concat ls).
+      split; [rewrite <- app_assoc, <- HL2; exact HL|].
+      split; [split; [congruence|lia]|]. constructor; assumption.
+Qed.
+
+(* ---- write paths over the channel-like stream ---- *)
+Definition wframe (f f' : cbf) : Prop :=
+  rbuf f' = rbuf f /\ sdata (strm f') = sdata (strm f) /\ bufsize f' = bufsize f /\
+  fl_buffered f' = fl_buffered f /\ fl_linebuf f' = fl_linebuf f /\ fl_write f' = fl_write f /\
+  fl_read f' = fl_read f.
+
+Lemma wframe_refl f : wframe f f.
+Proof. unfold wframe. tauto. Qed.
+
+Lemma write_all_spec fuel : forall (f : cbf) data,
+  (length data < fuel)%nat ->
+  exists f', write_all c_swrite fuel f data = Some f' /\
+    delivered (strm f') = delivered (strm f) ++ data /\ wbuf f' = wbuf f /\ closed f' = closed f /\
+    wframe f f'.
+Proof.
+  induction fuel as [|k IH]; intros f data Hl; [lia|].
+  cbn [write_all]. destruct (is_nil data) eqn:En.
+  - apply is_nil_true in En. subst. exists f. rewrite app_nil_r.
+    repeat split; reflexivity.
+  - apply is_nil_false in En. pose proof (zlen_pos _ En) as Hp.
+    unfold c_swrite at 1.
+    set (kk := Z.max 1 (Z.min (hd (zlen data) (woracle (strm f))) (zlen data))).
+    assert (Hk : 1 <= kk <= zlen data) by (unfold kk; lia).
+    match goal with |- exists f', write_all _ _ ?F _ = _ /\ _ => set (f1 := F) end.
+    assert (Hd : (length (drop kk data) < k)%nat).
+    { pose proof (zlen_drop kk data ltac:(lia)) as Hz. unfold zlen in *. lia. }
+    destruct (IH f1 (drop kk data) Hd) as (f' & E & D & W & C & Fr).
+    exists f'. split; [exact E|].
+    assert (Hf1 : delivered (strm f1) = delivered (strm f) ++ take kk data /\ wbuf f1 = wbuf f /\
+                  closed f1 = closed f /\ wframe f f1).
+    { unfold f1. destruct (fl_append f); cbn; repeat split; reflexivity. }
+    destruct Hf1 as (D1 & W1 & C1 & Fr1).
+    split; [rewrite D, D1, <- app_assoc, take_drop; reflexivity|].
+    split; [congruence|]. split; [congruence|].
+    unfold wframe in *. intuition congruence.
+Qed.
+
+Lemma flush_spec fuel (f : cbf) :
+  (length (wbuf f) < fuel)%nat ->
+  exists f', bf_flush c_swrite fuel f = (Ok tt, f') /\ wbuf f' = [] /\
+    delivered (strm f') = delivered (strm f) ++ wbuf f /\ closed f' = closed f /\ wframe f f'.
+Proof.
+  intros Hl. unfold bf_flush.
+  destruct (write_all_spec fuel f (wbuf f) Hl) as (f1 & E & D & W & C & Fr).
+  rewrite E. eexists. split; [reflexivity|]. cbn. repeat split; try assumption; apply Fr.
+Qed.
+
+(* bytes.rfind *)
+Lemma rindex_of_none c l : rindex_of c l = None -> index_of c l = None.
+Proof.
+  induction l as [|x l IH]; cbn; intros H; [reflexivity|].
+  destruct (rindex_of c l); [discriminate|]. destruct (x =? c); [discriminate|].
+  now rewrite IH.
+Qed.
+Lemma rindex_of_some c l p : rindex_of c l = Some p ->
+  (p < length l)%nat /\ index_of c (skipn (Datatypes.S p) l) = None.
+Proof.
+  revert p. induction l as [|x l IH]; intros p H; cbn in H; [discriminate|].
+  destruct (rindex_of c l) as [j|] eqn:E.
+  - injection H as <-. destruct (IH j eq_refl) as [H1 H2]. cbn [length skipn]. split; [lia|exact H2].
+  - destruct (x =? c); [|discriminate]. injection H as <-. cbn [length]. split; [lia|].
+    cbn. now apply rindex_of_none.
+Qed.
+Lemma index_of_none_app c a b :
+  index_of c a = None -> index_of c b = None -> index_of c (a ++ b) = None.
+Proof.
+  induction a as [|x a IH]; cbn; intros Ha Hb; [exact Hb|].
+  destruct (x =? c); [discriminate|].
+  destruct (index_of c a); [discriminate|]. now rewrite IH.
+Qed.
+
+Definition writable (f : cbf) : Prop := closed f = false /\ fl_write f = true.
+
+(* one write call: accepted, nothing lost, mode-specific buffer state *)
+Lemma write_spec fuel (f : cbf) d :
+  (length (wbuf f) + length d < fuel)%nat -> writable f ->
+  (fl_buffered f = false -> wbuf f = []) ->
+  exists f', bf_write c_swrite fuel f d = (Ok tt, f') /\
+    delivered (strm f') ++ wbuf f' = delivered (strm f) ++ wbuf f ++ d /\
+    closed f' = closed f /\ wframe f f' /\
+    (length (wbuf f') <= length (wbuf f) + length d)%nat /\
+    (fl_buffered f = false -> wbuf f = [] -> wbuf f' = []) /\
+    (fl_buffered f = true -> fl_linebuf f = true -> has_lf (wbuf f) = false -> has_lf (wbuf f') = false) /\
+    (fl_buffered f = true -> fl_linebuf f = false -> zlen (wbuf f') < Z.max 1 (bufsize f)).
+Proof.
+  intros Hl [Hc Hw] Hunb.
+  destruct (bf_write c_swrite fuel f d) as [r fr] eqn:Ew.
+  unfold bf_write in Ew. rewrite Hc, Hw in Ew. cbn [negb] in Ew.
+  destruct (fl_buffered f) eqn:Eb; cbn [negb] in Ew.
+  - set (wb := wbuf f ++ d) in *.
+    set (f1 := upd_wr f wb (pos f) (realpos f) (fsize f) (strm f)) in *.
+    destruct (fl_linebuf f) eqn:El.
+    + destruct (rindex_of LF d) as [p|] eqn:Ep.
+      * destruct (rindex_of_some _ _ _ Ep) as [Hp Hno].
+        set (lnp := Z.of_nat p + (zlen wb - zlen d)) in *.
+        assert (Hlnp : lnp = zlen (wbuf f) + Z.of_nat p) by (unfold lnp, wb; rewrite zlen_app; lia).
+        assert (Hlt : (length (take (lnp + 1) wb) < fuel)%nat).
+        { pose proof (zlen_take (lnp + 1) wb ltac:(unfold zlen in *; lia)) as Hz.
+          unfold wb in *. unfold zlen in *. rewrite app_length in *. lia. }
+        destruct (write_all_spec fuel f1 (take (lnp + 1) wb) Hlt) as (f2 & E & D & W & C & Fr).
+        rewrite E in Ew. injection Ew as <- <-. eexists. split; [reflexivity|]. cbn.
+        assert (Hdrop : drop (lnp + 1) wb = skipn (Datatypes.S p) d).
+        { unfold wb. rewrite drop_app_ge by (unfold zlen in *; lia). rewrite drop_skipn.
+          f_equal. unfold zlen in *. lia. }
+        split; [rewrite D; cbn; rewrite <- !app_assoc, take_drop; reflexivity|].
+        split; [rewrite C; reflexivity|]. split; [unfold wframe in *; cbn in *; intuition congruence|].
+        split; [rewrite Hdrop, skipn_length; lia|].
+        split; [intros; discriminate|]. split; [|intros; discriminate].
+        intros _ _ _. rewrite Hdrop. unfold has_lf. now rewrite Hno.
+      * injection Ew as <- <-. exists f1. split; [reflexivity|]. cbn. unfold wb. rewrite app_length.
+        split; [reflexivity|]. split; [reflexivity|]. split; [unfold wframe; cbn; tauto|]. split; [lia|].
+        split; [intros; discriminate|]. split; [|intros; discriminate].
+        intros _ _ Hn. unfold has_lf. rewrite index_of_none_app; [reflexivity| |now apply rindex_of_none].
+        now apply has_lf_false.
+    + destruct (bufsize f <=? zlen wb) eqn:Ebs.
+      * assert (Hlf : (length (wbuf f1) < fuel)%nat) by (cbn; unfold wb; rewrite app_length; lia).
+        destruct (flush_spec fuel f1 Hlf) as (f2 & E & W & D & C & Fr).
+        rewrite E in Ew. injection Ew as <- <-.
+        exists f2. split; [reflexivity|]. rewrite W, D. cbn. rewrite app_nil_r.
+        split; [reflexivity|]. split; [exact C|]. split; [exact Fr|]. split; [lia|].
+        split; [intros; discriminate|]. split; [intros; discriminate|]. intros _ _. cbn. lia.
+      * injection Ew as <- <-. exists f1. split; [reflexivity|]. cbn. unfold wb. rewrite app_length.
+        split; [reflexivity|]. split; [reflexivity|]. split; [unfold wframe; cbn; tauto|]. split; [lia|].
+        split; [intros; discriminate|]. split; [intros; discriminate|]. intros _ _. fold wb. lia.
+  - assert (Hlt : (length d < fuel)%nat) by lia.
+    destruct (write_all_spec fuel f d Hlt) as (f2 & E & D & W & C & Fr).
+    rewrite E in Ew. injection Ew as <- <-. exists f2. split; [reflexivity|]. rewrite D, W.
+    rewrite (Hunb eq_refl). cbn. rewrite app_nil_r.
+    split; [reflexivity|].
+    split; [exact C|]. split; [exact Fr|]. split; [lia|].
+    split; [intros _ H0; congruence|]. split; intros; discriminate.
+Qed.
+
+(* ---- frames that need no fuel assumption ---- *)
+Lemma write_all_frame fuel : forall (f : cbf) data f',
+  write_all c_swrite fuel f data = Some f' -> wframe f f'.
+Proof.
+  induction fuel as [|k IH]; intros f data f' H; cbn [write_all] in H.
+  - destruct (is_nil data); [injection H as <-; apply wframe_refl|discriminate].
+  - destruct (is_nil data); [injection H as <-; apply wframe_refl|].
+    unfold c_swrite at 1 in H. apply IH in H. unfold wframe in *.
+    destruct (fl_append f); cbn in *; intuition congruence.
+Qed.
+Lemma flush_frame fuel (f : cbf) r f' : bf_flush c_swrite fuel f = (r, f') -> wframe f f'.
+Proof.
+  unfold bf_flush. destruct (write_all c_swrite fuel f (wbuf f)) as [f1|] eqn:E; intros H; injection H as <- <-.
+  - apply write_all_frame in E. unfold wframe in *. cbn. intuition congruence.
+  - apply wframe_refl.
+Qed.
+Lemma wframe_trans a b c : wframe a b -> wframe b c -> wframe a c.
+Proof. unfold wframe. intuition congruence. Qed.
+Lemma write_frame fuel (f : cbf) d r f' : bf_write c_swrite fuel f d = (r, f') -> wframe f f'.
+Proof.
+  unfold bf_write. destruct (closed f); [intros H; injection H as <- <-; apply wframe_refl|].
+  destruct (fl_write f); cbn [negb]; [|intros H; injection H as <- <-; apply wframe_refl].
+  destruct (fl_buffered f); cbn [negb].
+  - set (f1 := upd_wr f (wbuf f ++ d) (pos f) (realpos f) (fsize f) (strm f)).
+    assert (F1 : wframe f f1) by (unfold wframe; cbn; tauto).
+    destruct (fl_linebuf f).
+    + destruct (rindex_of LF d).
+      * destruct (write_all c_swrite fuel f1 _) as [f2|] eqn:E; intros H; injection H as <- <-.
+        -- apply write_all_frame in E. eapply wframe_trans; [exact F1|].
+           unfold wframe in *. cbn. intuition congruence.
+        -- apply wframe_refl.
+      * intros H; injection H as <- <-. exact F1.
+    + destruct (bufsize f <=? zlen (wbuf f ++ d)).
+      * intros H. apply flush_frame in H. exact (wframe_trans _ _ _ F1 H).
+      * intros H; injection H as <- <-. exact F1.
+  - destruct (write_all c_swrite fuel f d) as [f2|] eqn:E; intros H; injection H as <- <-.
+    + now apply write_all_frame in E.
+    + apply wframe_refl.
+Qed.
+Lemma close_frame fuel (f : cbf) r f' : bf_close c_swrite fuel f = (r, f') -> wframe f f'.
+Proof.
+  unfold bf_close. destruct (bf_flush c_swrite fuel f) as [[u|e] f1] eqn:E; intros H; injection H as <- <-;
+    apply flush_frame in E; unfold wframe in *; cbn; intuition congruence.
+Qed.
+Lemma wframe_logical f f' : wframe f f' -> logical f' = logical f /\ rframe f f'.
+Proof.
+  intros (H1 & H2 & H3 & _). unfold rframe, logical. rewrite H1, H2. repeat split; [exact H3|lia].
+Qed.
+
+Lemma unreadable_read fuel (f : cbf) size :
+  ~ readable f -> bf_read c_sread fuel f size = (Raise IOErr, f).
+Proof.
+  unfold readable, bf_read. destruct (closed f); [reflexivity|]. destruct (fl_read f); [tauto|reflexivity].
+Qed.
+Lemma unreadable_readline fuel (f : cbf) size :
+  ~ readable f -> bf_readline c_sread fuel f size = (Raise IOErr, f).
+Proof.
+  unfold readable, bf_readline. destruct (closed f); [reflexivity|]. destruct (fl_read f); [tauto|reflexivity].
+Qed.
+Lemma readable_dec (f : cbf) : readable f \/ ~ readable f.
+Proof.
+  unfold readable. destruct (closed f), (fl_read f); intuition congruence.
+Qed.
+Lemma rframe_refl f : rframe f f.
+Proof. unfold rframe. split; [reflexivity|lia]. Qed.
+
+(* every call hands the caller exactly the next bytes of the logical stream *)
+Lemma step_logical fuel (f : cbf) o r f' :
+  (length (logical f) < fuel)%nat -> 0 < bufsize f -> step fuel f o = (r, f') ->
+  logical f = result_bytes r ++ logical f' /\ rframe f f'.
+Proof.
+  intros Hf Hb H. pose proof (fuel_sdata _ _ Hf) as Hs.
+  destruct o as [n| |size|hint| |d| |]; cbn [step] in H.
+  - destruct (readable_dec f) as [Hr|Hr].
+    + destruct (Z_lt_ge_dec n 0) as [Hn|Hn].
+      * destruct (c_read_all fuel f (Some n) Hs Hr Hn) as (f1 & E & P & _).
+        rewrite E in H. injection H as <- <-. now apply post_rframe.
+      * destruct (c_read_n fuel f n Hs Hb Hr ltac:(lia)) as (f1 & E & P).
+        rewrite E in H. injection H as <- <-. now apply post_rframe.
+    + rewrite (unreadable_read _ _ _ Hr) in H. injection H as <- <-. split; [reflexivity|apply rframe_refl].
+  - destruct (readable_dec f) as [Hr|Hr].
+    + destruct (c_read_all fuel f None Hs Hr I) as (f1 & E & P & _).
+      rewrite E in H. injection H as <- <-. now apply post_rframe.
+    + rewrite (unreadable_read _ _ _ Hr) in H. injection H as <- <-. split; [reflexivity|apply rframe_refl].
+  - destruct (readable_dec f) as [Hr|Hr].
+    + destruct (c_readline fuel f size Hs Hb Hr) as (f1 & E & P).
+      rewrite E in H. injection H as <- <-. now apply post_rframe.
+    + rewrite (unreadable_readline _ _ _ Hr) in H. injection H as <- <-. split; [reflexivity|apply rframe_refl].
+  - destruct (readable_dec f) as [Hr|Hr].
+    + unfold bf_readlines in H.
+      destruct (readlines_loop_spec fuel fuel f hint 0 Hf Hf Hb Hr) as (ls & f1 & E & HL & Fr & _).
+      rewrite E in H. injection H as <- <-. split; [exact HL|exact Fr].
+    + unfold bf_readlines in H. destruct fuel as [|k]; [lia|]. cbn [readlines_loop] in H.
+      rewrite (unreadable_readline _ _ _ Hr) in H. injection H as <- <-.
+      split; [reflexivity|apply rframe_refl].
+  - unfold bf_next in H. destruct (readable_dec f) as [Hr|Hr].
+    + destruct (c_readline fuel f None Hs Hb Hr) as (f1 & E & P).
+      rewrite E in H. destruct (post_rframe _ _ _ P) as [HL Fr].
+      destruct (is_nil (line_spec None (logical f))) eqn:En; injection H as <- <-.
+      * apply is_nil_true in En. rewrite En in HL. split; [exact HL|exact Fr].
+      * split; [exact HL|exact Fr].
+    + rewrite (unreadable_readline _ _ _ Hr) in H. injection H as <- <-. split; [reflexivity|apply rframe_refl].
+  - destruct (bf_write c_swrite fuel f d) as [[u|e] f1] eqn:E; cbn in H; injection H as <- <-;
+      apply write_frame in E; destruct (wframe_logical _ _ E) as [-> Fr]; (split; [reflexivity|exact Fr]).
+  - destruct (bf_flush c_swrite fuel f) as [[u|e] f1] eqn:E; cbn in H; injection H as <- <-;
+      apply flush_frame in E; destruct (wframe_logical _ _ E) as [-> Fr]; (split; [reflexivity|exact Fr]).
+  - destruct (bf_close c_swrite fuel f) as [[u|e] f1] eqn:E; cbn in H; injection H as <- <-;
+      apply close_frame in E; destruct (wframe_logical _ _ E) as [-> Fr]; (split; [reflexivity|exact Fr]).
+Qed.
+
+Lemma run_ops_read_stream fuel : forall ops (f : cbf) rs f',
+  (length (logical f) < fuel)%nat -> 0 < bufsize f -> run_ops fuel f ops = (rs, f') ->
+  logical f = concat (map result_bytes rs) ++ logical f'.
+Proof.
+  induction ops as [|o ops IH]; intros f rs f' Hf Hb H; cbn [run_ops] in H.
+  - injection H as <- <-. reflexivity.
+  - destruct (step fuel f o) as [x f1] eqn:E1.
+    destruct (run_ops fuel f1 ops) as [xs f2] eqn:E2. injection H as <- <-.
+    destruct (step_logical _ _ _ _ _ Hf Hb E1) as [HL [Hb1 Hlen]].
+    cbn [map concat]. rewrite <- app_assoc, <- (IH f1 xs f2); [exact HL|lia|lia|exact E2].
+Qed.
+
+Lemma set_mode_bufsize (hr hw ha hp : bool) bufsz size0 (s : cstream) :
+  0 < bufsize (set_mode hr hw ha hp bufsz size0 s).
+Proof. unfold set_mode, DEFAULT_BUFSIZE. cbn. destruct (bufsz <? 0) eqn:E; destruct (1 <? _) eqn:E2; lia. Qed.
+
+(* ---- read calls never touch the write side (no fuel assumption) ---- *)
+Definition rdframe (f f' : cbf) : Prop :=
+  wbuf f' = wbuf f /\ delivered (strm f') = delivered (strm f) /\ fl_buffered f' = fl_buffered f /\
+  fl_linebuf f' = fl_linebuf f /\ fl_write f' = fl_write f /\ closed f' = closed f /\
+  bufsize f' = bufsize f.
+Ltac rd := unfold rdframe in *; cbn in *; intuition congruence.
+Lemma rdframe_refl f : rdframe f f. Proof. rd. Qed.
+
+Lemma fill_loop_rd fuel : forall size (f f' : cbf),
+  fill_loop c_sread fuel size f = Some f' -> rdframe f f'.
+Proof.
+  induction fuel as [|k IH]; intros size f f' H; cbn [fill_loop] in H;
+    (destruct (size <=? zlen (rbuf f)); [injection H as <-; apply rdframe_refl|]); [discriminate|].
+  unfold c_sread at 1 in H.
+  match type of H with (if is_nil ?d then _ else _) = _ => destruct (is_nil d) end.
+  - injection H as <-. rd.
+  - apply IH in H. rd.
+Qed.
+Lemma read_all_loop_rd fuel : forall res (f : cbf) res' f',
+  read_all_loop c_sread fuel res f = Some (res', f') -> rdframe f f'.
+Proof.
+  induction fuel as [|k IH]; intros res f res' f' H; cbn [read_all_loop] in H; [discriminate|].
+  unfold c_sread at 1 in H.
+  match type of H with (if is_nil ?d then _ else _) = _ => destruct (is_nil d) end.
+  - injection H as <- <-. rd.
+  - apply IH in H. rd.
+Qed.
+Lemma rl_loop_rd fuel : forall size line (f : cbf),
+  match rl_loop c_sread fuel size line f with
+  | RLEof _ f' => rdframe f f' | RLBreak _ _ f' => rdframe f f' | RLFuel => True end.
+Proof.
+  induction fuel as [|k IH]; intros size line f; cbn [rl_loop];
+    (match goal with |- context [if ?c && ?d then _ else _] => destruct (c && d) end; [rd|]);
+    (destruct (has_lf line); [rd|]); [exact I|].
+  unfold c_sread at 1.
+  match goal with |- context [if is_nil ?d then _ else _] => destruct (is_nil d) end; [rd|].
+  match goal with |- context [rl_loop c_sread k size ?l ?g] => specialize (IH size l g);
+    destruct (rl_loop c_sread k size l g) end; try exact I; rd.
+Qed.
+Lemma read_rd fuel (f : cbf) size r f' : bf_read c_sread fuel f size = (r, f') -> rdframe f f'.
+Proof.
+  unfold bf_read. destruct (closed f); [intros H; injection H as <- <-; apply rdframe_refl|].
+  destruct (fl_read f); cbn [negb]; [|intros H; injection H as <- <-; apply rdframe_refl].
+  match goal with |- context [if ?c then _ else _] => destruct c end.
+  - match goal with |- context [read_all_loop c_sread fuel ?a ?g] =>
+      destruct (read_all_loop c_sread fuel a g) as [[res f1]|] eqn:E end;
+      intros H; injection H as <- <-; [apply read_all_loop_rd in E; rd|apply rdframe_refl].
+  - match goal with |- context [if ?c then _ else _] => destruct c end.
+    + intros H; injection H as <- <-. rd.
+    + match goal with |- context [fill_loop c_sread fuel ?a ?g] =>
+        destruct (fill_loop c_sread fuel a g) as [f1|] eqn:E end;
+        intros H; injection H as <- <-; [apply fill_loop_rd in E; rd|apply rdframe_refl].
+Qed.
+Lemma readline_rd fuel (f : cbf) size r f' : bf_readline c_sread fuel f size = (r, f') -> rdframe f f'.
+Proof.
+  unfold bf_readline. destruct (closed f); [intros H; injection H as <- <-; apply rdframe_refl|].
+  destruct (fl_read f); cbn [negb]; [|intros H; injection H as <- <-; apply rdframe_refl].
+  pose proof (rl_loop_rd fuel size (rbuf f) f) as R.
+  destruct (rl_loop c_sread fuel size (rbuf f) f) as [l f1|l t f1|].
+  - intros H; injection H as <- <-. rd.
+  - destruct (index_of LF l); intros H; injection H as <- <-; rd.
+  - intros H; injection H as <- <-. apply rdframe_refl.
+Qed.
+Lemma rdframe_trans a b c : rdframe a b -> rdframe b c -> rdframe a c.
+Proof. rd. Qed.
+Lemma readlines_rd fuel : forall lfuel (f : cbf) hint count r f',
+  readlines_loop c_sread lfuel fuel hint count f = (r, f') -> rdframe f f'.
+Proof.
+  induction lfuel as [|k IH]; intros f hint count r f' H; cbn [readlines_loop] in H.
+  - injection H as <- <-. apply rdframe_refl.
+  - destruct (bf_readline c_sread fuel f None) as [[line|e] f1] eqn:E; apply readline_rd in E.
+    + destruct (is_nil line); [injection H as <- <-; exact E|].
+      match type of H with (if ?c then _ else _) = _ => destruct c end; [injection H as <- <-; exact E|].
+      destruct (readlines_loop c_sread k fuel hint (count + zlen line) f1) as [[ls|e] f2] eqn:E2;
+        apply IH in E2; injection H as <- <-; eapply rdframe_trans; eassumption.
+    + injection H as <- <-. exact E.
+Qed.
+
+(* ---- write completeness over op sequences ---- *)
+Definition opw (o : op) : nat := match o with OWrite d => length d | _ => O end.
+Definition wtotal (ops : list op) : nat := fold_right (fun o a => (opw o + a)%nat) O ops.
+(* data of the write calls that were accepted (returned None) *)
+Definition accepted1 (o : op) (r : oresult) : list Z :=
+  match o, r with OWrite d, RNone => d | _, _ => [] end.
+Fixpoint accepted (ops : list op) (rs : list oresult) : list Z :=
+  match ops, rs with
+  | o :: ops', r :: rs' => accepted1 o r ++ accepted ops' rs'
+  | _, _ => []
+  end.
+Definition winv (f : cbf) : Prop := fl_buffered f = false -> wbuf f = [].
+(* the whole data handed to write so far is split between the stream and the buffer *)
+Definition wview (f : cbf) : list Z := delivered (strm f) ++ wbuf f.
+
+Lemma step_wview fuel (f : cbf) o r f' :
+  (length (wbuf f) + opw o < fuel)%nat -> winv f -> step fuel f o = (r, f') ->
+  wview f' = wview f ++ accepted1 o r /\ winv f' /\
+  (length (wbuf f') <= length (wbuf f) + opw o)%nat /\
+  (fl_buffered f' = fl_buffered f /\ fl_linebuf f' = fl_linebuf f /\ bufsize f' = bufsize f) /\
+  (fl_buffered f = true -> fl_linebuf f = true -> has_lf (wbuf f) = false -> has_lf (wbuf f') = false) /\
+  (match o with OFlush | OClose => wbuf f' = [] /\ r = RNone | _ => True end).
+Proof.
+  intros Hf Hw H.
+  assert (Hread : rdframe f f' -> accepted1 o r = [] ->
+     wview f' = wview f ++ accepted1 o r /\ winv f' /\
+     (length (wbuf f') <= length (wbuf f) + opw o)%nat /\
+     (fl_buffered f' = fl_buffered f /\ fl_linebuf f' = fl_linebuf f /\ bufsize f' = bufsize f) /\
+     (fl_buffered f = true -> fl_linebuf f = true -> has_lf (wbuf f) = false -> has_lf (wbuf f') = false)).
+  { intros (R1 & R2 & R3 & R4 & R5 & R6 & R7) ->. unfold wview, winv in *. rewrite R1, R2, R3, app_nil_r.
+    repeat split; try assumption; try lia. }
+  destruct o as [n| |size|hint| |d| |]; cbn [step] in H.
+  - destruct (bf_read c_sread fuel f (Some n)) as [[b|e] f1] eqn:E; cbn in H; injection H as <- <-;
+      apply read_rd in E; pose proof (Hread E eq_refl); tauto.
+  - destruct (bf_read c_sread fuel f None) as [[b|e] f1] eqn:E; cbn in H; injection H as <- <-;
+      apply read_rd in E; pose proof (Hread E eq_refl); tauto.
+  - destruct (bf_readline c_sread fuel f size) as [[b|e] f1] eqn:E; cbn in H; injection H as <- <-;
+      apply readline_rd in E; pose proof (Hread E eq_refl); tauto.
+  - unfold bf_readlines in H.
+    destruct (readlines_loop c_sread fuel fuel hint 0 f) as [[b|e] f1] eqn:E; injection H as <- <-;
+      apply readlines_rd in E; pose proof (Hread E eq_refl); tauto.
+  - unfold bf_next in H.
+    destruct (bf_readline c_sread fuel f None) as [[b|e] f1] eqn:E; apply readline_rd in E.
+    + destruct (is_nil b); cbn in H; injection H as <- <-; pose proof (Hread E eq_refl); tauto.
+    + cbn in H; injection H as <- <-; pose proof (Hread E eq_refl); tauto.
+  - cbn [opw] in Hf.
+    destruct (closed f) eqn:Ec; [|destruct (fl_write f) eqn:Ewr].
+    + unfold bf_write in H. rewrite Ec in H. cbn in H. injection H as <- <-.
+      pose proof (Hread (rdframe_refl f) eq_refl). tauto.
+    + destruct (write_spec fuel f d Hf (conj Ec Ewr) Hw) as (f1 & E & V & C & Fr & Hlen & U & Lb & _).
+      rewrite E in H. cbn in H. injection H as <- <-. cbn [accepted1].
+      destruct Fr as (_ & _ & F3 & F4 & F5 & _).
+      split; [unfold wview; rewrite V; now rewrite <- app_assoc|].
+      split; [unfold winv in *; intros Hb; apply U; [congruence|apply Hw; congruence]|].
+      split; [exact Hlen|]. split; [tauto|]. split; [exact Lb|exact I].
+    + unfold bf_write in H. rewrite Ec, Ewr in H. cbn in H. injection H as <- <-.
+      pose proof (Hread (rdframe_refl f) eq_refl). tauto.
+  - cbn [opw] in Hf. destruct (flush_spec fuel f ltac:(lia)) as (f1 & E & W & D & C & Fr).
+    rewrite E in H. cbn in H. injection H as <- <-. cbn [accepted1]. rewrite app_nil_r.
+    destruct Fr as (_ & _ & F3 & F4 & F5 & _).
+    split; [unfold wview; rewrite W, D, app_nil_r; reflexivity|].
+    split; [intros _; exact W|]. split; [rewrite W; cbn; lia|]. split; [tauto|].
+    split; [intros; rewrite W; reflexivity|]. split; [exact W|reflexivity].
+  - cbn [opw] in Hf. unfold bf_close in H. destruct (flush_spec fuel f ltac:(lia)) as (f1 & E & W & D & C & Fr).
+    rewrite E in H. cbn in H. injection H as <- <-. cbn [accepted1]. rewrite app_nil_r.
+    destruct Fr as (_ & _ & F3 & F4 & F5 & _).
+    split; [unfold wview; cbn; rewrite W, D, app_nil_r; reflexivity|].
+    split; [intros _; exact W|]. split; [cbn; rewrite W; cbn; lia|]. split; [cbn; tauto|].
+    split; [intros; cbn; rewrite W; reflexivity|]. split; [exact W|reflexivity].
+Qed.
+
+Lemma run_ops_wview fuel : forall ops (f : cbf) rs f',
+  (length (wbuf f) + wtotal ops < fuel)%nat -> winv f -> run_ops fuel f ops = (rs, f') ->
+  wview f' = wview f ++ accepted ops rs /\ winv f'.
+Proof.
+  induction ops as [|o ops IH]; intros f rs f' Hf Hw H; cbn [run_ops] in H.
+  - injection H as <- <-. cbn. rewrite app_nil_r. tauto.
+  - destruct (step fuel f o) as [x f1] eqn:E1.
+    destruct (run_ops fuel f1 ops) as [xs f2] eqn:E2. injection H as <- <-.
+    cbn [wtotal fold_right] in Hf. fold (wtotal ops) in Hf.
+    destruct (step_wview fuel f o x f1 ltac:(lia) Hw E1) as (V & W1 & Hl & _).
+    destruct (IH f1 xs f2 ltac:(lia) W1 E2) as (V2 & W2).
+    split; [|exact W2]. cbn [accepted]. rewrite V2, V. now rewrite app_assoc.
+Qed.
+
+(* line-buffered mode: after every call of any op sequence the buffer holds no newline *)
+Lemma run_ops_line_buffered fuel : forall ops (f : cbf) rs f',
+  (length (wbuf f) + wtotal ops < fuel)%nat -> winv f ->
+  fl_buffered f = true -> fl_linebuf f = true -> has_lf (wbuf f) = false ->
+  run_ops fuel f ops = (rs, f') -> has_lf (wbuf f') = false.
+Proof.
+  induction ops as [|o ops IH]; intros f rs f' Hf Hw Hb Hl Hn H; cbn [run_ops] in H.
+  - injection H as <- <-. exact Hn.
+  - destruct (step fuel f o) as [x f1] eqn:E1.
+    destruct (run_ops fuel f1 ops) as [xs f2] eqn:E2. injection H as <- <-.
+    cbn [wtotal fold_right] in Hf. fold (wtotal ops) in Hf.
+    destruct (step_wview fuel f o x f1 ltac:(lia) Hw E1) as (V & W1 & Hlen & (B1 & B2 & _) & Lb & _).
+    apply (IH f1 xs f2); try assumption; try lia; try congruence; try (now apply Lb).
+Qed.
+
+Lemma set_mode_winv (hr hw ha hp : bool) bufsz size0 (s : cstream) :
+  winv (set_mode hr hw ha hp bufsz size0 s).
+Proof. unfold winv. reflexivity. Qed.
+
+(* ---- statements exported by Props/C42_props.v ---- *)
+Lemma p_read_exact :
+  forall (fuel : nat) (f : cbf) (n : Z),
+    (length (sdata (strm f)) < fuel)%nat -> 0 < bufsize f -> readable f -> 0 <= n ->
+    exists f', bf_read c_sread fuel f (Some n) = (Ok (take n (logical f)), f') /\
+               logical f = take n (logical f) ++ logical f'.
+Proof.
+  intros fuel f n H1 H2 H3 H4. destruct (c_read_n fuel f n H1 H2 H3 H4) as (f' & E & P).
+  exists f'. split; [exact E|]. exact (proj1 (post_rframe _ _ _ P)).
+Qed.
+
+Lemma p_read_all_exact :
+  forall (fuel : nat) (f : cbf),
+    (length (sdata (strm f)) < fuel)%nat -> readable f ->
+    exists f', bf_read c_sread fuel f None = (Ok (logical f), f') /\ logical f' = [].
+Proof.
+  intros fuel f H1 H2. destruct (c_read_all fuel f None H1 H2 I) as (f' & E & _ & P).
+  exists f'. split; assumption.
+Qed.
+
+Lemma p_readline_exact :
+  forall (fuel : nat) (f : cbf) (size : option Z),
+    (length (sdata (strm f)) < fuel)%nat -> 0 < bufsize f -> readable f ->
+    exists f', bf_readline c_sread fuel f size = (Ok (line_spec size (logical f)), f') /\
+               logical f = line_spec size (logical f) ++ logical f'.
+Proof.
+  intros fuel f size H1 H2 H3. destruct (c_readline fuel f size H1 H2 H3) as (f' & E & P).
+  exists f'. split; [exact E|]. exact (proj1 (post_rframe _ _ _ P)).
+Qed.
+
+Lemma p_write_complete :
+  forall (fuel : nat) (ops : list op) (f : cbf) (rs : list oresult) (f' : cbf),
+    (length (wbuf f) + wtotal ops < fuel)%nat -> winv f ->
+    run_ops fuel f ops = (rs, f') ->
+    delivered (strm f') ++ wbuf f' = (delivered (strm f) ++ wbuf f) ++ accepted ops rs.
+Proof. intros fuel ops f rs f' H1 H2 H3. exact (proj1 (run_ops_wview fuel ops f rs f' H1 H2 H3)). Qed.
+
+Lemma p_flush_empties :
+  forall (fuel : nat) (f : cbf) (o : op) (r : oresult) (f' : cbf),
+    (o = OFlush \/ o = OClose) -> (length (wbuf f) < fuel)%nat -> winv f ->
+    step fuel f o = (r, f') ->
+    r = RNone /\ wbuf f' = [] /\ delivered (strm f') = delivered (strm f) ++ wbuf f.
+Proof.
+  intros fuel f o r f' Ho Hf Hw H.
+  assert (Hf' : (length (wbuf f) + opw o < fuel)%nat) by (destruct Ho; subst; cbn; lia).
+  destruct (step_wview fuel f o r f' Hf' Hw H) as (V & _ & _ & _ & _ & Hlast).
+  assert (Hacc : accepted1 o r = []) by (destruct Ho; subst; reflexivity).
+  assert (Hl : wbuf f' = [] /\ r = RNone) by (destruct Ho; subst; exact Hlast).
+  destruct Hl as [Hl1 Hl2]. split; [exact Hl2|]. split; [exact Hl1|].
+  unfold wview in V. rewrite Hl1, Hacc, !app_nil_r in V. exact V.
+Qed.
+
+Lemma p_initial_state :
+  forall (hr hw ha hp : bool) (bufsz size0 : Z) (s : cstream),
+    let f := set_mode hr hw ha hp bufsz size0 s in
+    0 < bufsize f /\ winv f /\ has_lf (wbuf f) = false /\ logical f = sdata s.
+Proof.
+  intros. split; [apply set_mode_bufsize|]. split; [apply set_mode_winv|]. split; reflexivity.
+Qed.
